@@ -51,7 +51,10 @@ def ident_param(w, fw, term, lf):
     """The symbolic term denotes exactly one parameter of entry lf, travelling by identity; returns its index."""
     c = w.inv.classify(term)
     idxs = set()
-    for x in fw.x.expand(c):
+    exps = fw.x.expand(c)
+    mine = [x for x in exps if leaf(x)[0] == "Entry" and leaf(x)[1] == lf.path]
+    # expansions through other callers of the same internal function are not this entry point's behaviour
+    for x in (mine if mine else exps):
         l = leaf(x)
         if l[0] == "Dead":
             continue
